@@ -181,7 +181,7 @@ def _fun_src(shape: Shape, f: str, prog: Dict[str, Any], names: Dict[str, str],
         # non-accepted code: its text is editable but its value is fixed (DdsEval.ExtVal)
         lines.append("    return [%r, 0, 99, [], []]" % f)
         return lines
-    lines.append("    rv = [%s]" % ", ".join("L.enc(%r, %s)" % (v, v) for v in shape.reads[f]))
+    lines.append("    rv = [%s]" % ", ".join("L.enc(%r, %s)" % (v, pyname(shape, v)) for v in shape.reads[f]))
     lines.append("    sv = []")
     for (i, s) in enumerate(shape.stmts[f]):
         lines += _stmt_lines(shape, f, i, s, args, names)
@@ -237,6 +237,15 @@ def _module_of(shape: Shape, layout: str) -> Dict[str, str]:
     raise ValueError(layout)
 
 
+def _plain_ref(shape: Shape, funs: List[str], g: str, gm: str, lines: List[str], names: Dict[str, str]) -> None:
+    """realisation `plain_refs`: a function passed as a higher-order reference is named plainly also
+    under the module import forms (references through a module attribute are C01's known finding;
+    the other properties' families must not trip over it)"""
+    if shape.real.get("plain_refs") and any(s_["k"] == "ref" and s_["g"] == g for f_ in funs for s_ in shape.stmts[f_]):
+        lines.append("from %s import %s as ref_%s" % (gm, g, g))
+        names["ref:" + g] = "ref_" + g
+
+
 def files_of(shape: Shape, prog: Dict[str, Any]) -> Dict[str, str]:
     """relative file name -> content, for the whole scratch root (package + _vlog)."""
     layout = prog["layout"]
@@ -288,6 +297,7 @@ def files_of(shape: Shape, prog: Dict[str, Any]) -> Dict[str, str]:
             elif import_form == "module":
                 lines.append("import %s" % gm)
                 names[g] = gm + "." + g
+                _plain_ref(shape, funs, g, gm, lines, names)
             elif import_form == "local":
                 # the module is imported by a statement inside the body of each function that calls into it
                 # (a function passed as a higher-order reference is named plainly: references through a
@@ -299,6 +309,7 @@ def files_of(shape: Shape, prog: Dict[str, Any]) -> Dict[str, str]:
             elif import_form == "module_as":
                 lines.append("import %s as m_%s" % (gm, g))
                 names[g] = "m_%s.%s" % (g, g)
+                _plain_ref(shape, funs, g, gm, lines, names)
             else:
                 raise ValueError(import_form)
         lines += _filler(unrel, "top")
@@ -307,7 +318,7 @@ def files_of(shape: Shape, prog: Dict[str, Any]) -> Dict[str, str]:
         if any(shape.vtype[v] == "dataclass_local" for v in vs):
             lines += DCM_SRC + ["", ""]
         for v in vs:
-            lines.append("%s = %s" % (v, VAL_SRC[shape.vtype[v]][prog["vval"][v]]))
+            lines.append("%s = %s" % (pyname(shape, v), VAL_SRC[shape.vtype[v]][prog["vval"][v]]))
         order = list(funs)
         if unrel % 2 == 1:
             order = list(reversed(order))   # "reorder definitions"
@@ -359,6 +370,17 @@ def write_tree(root: str, files: Dict[str, str]) -> bool:
     return changed
 
 
+BUILTIN_NAMES = ["max", "format", "input", "type", "id", "filter", "min", "dir"]
+
+
+def pyname(shape: Shape, v: str) -> str:
+    """Python identifier of the abstract variable v (realisation `var_names`: "builtin" gives the
+    variables names that shadow Python builtins -- they are ordinary module variables all the same)."""
+    if shape.real.get("var_names") == "builtin":
+        return BUILTIN_NAMES[shape.vars.index(v) % len(BUILTIN_NAMES)] + ("" if shape.vars.index(v) < len(BUILTIN_NAMES) else "_%d" % shape.vars.index(v))
+    return v
+
+
 def var_value_src(shape: Shape, v: str, ver: int) -> str:
     return VAL_SRC[shape.vtype[v]][ver]
 
@@ -366,5 +388,5 @@ def var_value_src(shape: Shape, v: str, ver: int) -> str:
 def var_inplace_stmt(shape: Shape, v: str, ver: int):
     """For variable types whose in-process edit is an in-place mutation: the statement, else None."""
     if shape.vtype[v] == "tuplelist":
-        return "%s[1][:] = %s[1]" % (v, VAL_SRC["tuplelist"][ver])
+        return "%s[1][:] = %s[1]" % (pyname(shape, v), VAL_SRC["tuplelist"][ver])
     return None
